@@ -69,11 +69,33 @@ static bool same(const PSnap& a, const PSnap& b)
     return eq;
 }
 
+#ifndef SRCSET
+#define SRCSET 0   // 1: packets with a payload of >= 16 bytes are built through the typed API and setPayload
+#endif
 static Packet* mk(int len)
 {
     Packet* p;
     if (len < 0)
         p = new Packet;
+#if SRCSET
+    else if (len >= 16)
+    {
+        // a typed payload installed through setPayload (no validation on that path): CAN payload built through the API whose
+        // flags may carry bus-error bits - a packet the validators would reject still has to copy as it is
+        CanPayload pl;
+        static uint8_t d8[LMAXV];
+        vp_bytes(d8, len - 16);
+        pl.setData(d8, static_cast<uint8_t>(len - 16));
+        pl.setId(vp_u32() & 0x1FFFFFFF);
+        pl.setFlags(vp_u16());
+        pl.setErrorPosition(vp_u8());
+        p = new Packet;
+        p->setPayload(pl);
+        p->setTimestamp(vp_u64());
+        p->setInterfaceId(vp_u32());
+        p->setCommonFlags(vp_u8() & 0xB3);
+    }
+#endif
     else
     {
         static uint8_t buf[16 + LMAXV];
